@@ -130,6 +130,22 @@ func init() {
 		it.p.assertAxiom(Not(Eq(App("len", bvSort(64), r), BVu(64, 0))))
 		return Tuple{&StrV{T: r}, IfaceV{}}
 	}
+	// ParseHeight(Height.String()) on an opaque rendering: the exact inverse (the byte-level round trip is checked in C19)
+	models[teleportMod+"/x/xibc/core/client/types.ParseHeight"] = func(it *Interp, a []Val) Val {
+		s := a[0].(*StrV)
+		if s.T != nil && s.T.op == "app" && it.p.fmtNames[s.T.name] == "%d-%d" && len(s.T.args) == 2 {
+			var ht types.Type
+			for _, p := range it.prog.AllPackages() {
+				if p.Pkg.Path() == teleportMod+"/x/xibc/core/client/types" {
+					ht = p.Pkg.Scope().Lookup("Height").Type()
+				}
+			}
+			h := it.zero(ht).(*StructV)
+			h.F[0], h.F[1] = s.T.args[0], s.T.args[1]
+			return Tuple{h, IfaceV{}}
+		}
+		return fallThrough
+	}
 	_ = strings.Contains
 	textString := func(it *Interp, a []Val) Val {
 		var leaves []*Term
